@@ -127,17 +127,18 @@ def raised_with_values(fn):
     return {"inst": {"t": "none"}, "kwval": {"t": "none"}, "sch": {"t": "none"}}
 
 
-def twist(x, rng):
-    """an instance of the same shape whose numbers changed kind (integer-valued float <-> fractional, int <-> float)"""
+def twist(x, mode):
+    """an instance of the same shape whose numbers all changed kind: mode "integral" -> integer-valued floats (1 -> 1.0,
+    1.5 -> 1.0), mode "fractional" -> fractional floats (1 -> 1.5, 1.0 -> 1.5)"""
     if isinstance(x, bool) or x is None or isinstance(x, str):
         return x
-    if isinstance(x, int):
-        return rng.choice([float(x), x + 0.5, x])
-    if isinstance(x, float):
-        return rng.choice([x + 0.5, float(int(x)) if abs(x) < 1e15 else x, x])
+    if isinstance(x, (int, float)):
+        if abs(x) >= 1e15:
+            return x
+        return float(int(x)) if mode == "integral" else int(x) + 0.5
     if isinstance(x, list):
-        return [twist(y, rng) for y in x]
-    return {k: twist(y, rng) for k, y in x.items()}
+        return [twist(y, mode) for y in x]
+    return {k: twist(y, mode) for k, y in x.items()}
 
 
 def _null_err():
@@ -171,8 +172,10 @@ def record_one(task):
         if isinstance(I, str):
             I = [I]
     reuse = rng.random() < 0.6
-    if reuse and rng.random() < 0.5:
-        I = twist(I, rng)          # numbers of every kind (int, integer-valued float, fractional) at the same places
+    first_kind = rng.choice(["integral", "fractional"])
+    if reuse and rng.random() < 0.6:
+        # numbers of the other kind at the same places (the validator has met `first_kind` there, see below)
+        I = twist(I, "fractional" if first_kind == "integral" else "integral")
     kw = {} if fc is None else {"format_checker": fc}
 
     def module_validate(inst):
@@ -189,7 +192,7 @@ def record_one(task):
             # the validator object is not fresh: it has been used on other instances of the same shape first (module
             # validate() below builds its own fresh one)
             if reuse:
-                used_on = [twist(I, rng), g.instance(S if isinstance(S, dict) else {})]
+                used_on = [twist(I, first_kind), g.instance(S if isinstance(S, dict) else {})]
                 for I0 in used_on:
                     v.is_valid(I0)
                     list(v.iter_errors(I0))
